@@ -34,7 +34,7 @@ def recase(s, rng):
 
 
 GHOSTS = ["aGhost", "aNoFile", "aTypo"]      # entities that have no file in the workspace
-DRESS = "bcalmrsg"                              # wsutil::render: what stands above the header / how the file is encoded (no `k` here)
+DRESS = "bcalmrs"                               # wsutil::render: what stands above the header / how the file is encoded (no `k` here)
 
 
 def dress(rng, p=(1, 4)):
@@ -446,7 +446,7 @@ RULE = ("cases = corpus (self parent in every letter case, mutual parents, longe
         "(none, a class, a missing class) deterministically, + random workspaces over real entities and ghosts, + ghosts put into one uses list in five of all other cases; def / hier also ask about "
         "the names in the uses line, the types of the locals and the undeclared names, comp also after `o.` for a local whose type has no file; "
         "empty files (zero bytes, byte order mark / blank lines / comments only) and `module` headers as used entity, parent and user; chains of 24 classes (rooted, missing parent, one big cycle); "
-        "one file in four dressed (blank lines / comment / annotation above the header, Latin-1 bytes, byte order mark, CRLF, sub-directory, .GOD). "
+        "one file in four dressed (blank lines / comment / annotation above the header, Latin-1 bytes, byte order mark, CRLF, sub-directory). "
         "header-less files (flag n: no class line, but uses list, members, unknown types, bodies): every uses-graph incl. self-use over 2 and 3 files x header-less subsets, "
         "and over 3 files used by a class. distinct_nontrivial = distinct implementation outputs among workspaces that have a self parent, a parent cycle or a header-less file with a uses list")
 
